@@ -224,6 +224,13 @@ def fmt_map(mm):
         return f"all_resources raised {type(e).__name__}"
 
 
+def probe_add(mm):
+    try:
+        return ("ok",) + tuple(mm.add_resource(object(), name=("verif_probe",), size=1))
+    except (ValueError, TypeError) as e:
+        return ("refused", type(e).__name__)
+
+
 def gen_case(seed, idx):
     return {"seed": seed, "idx": idx, "kind": KINDS[idx % len(KINDS)]}
 
@@ -283,6 +290,20 @@ def run_case(case):
         after = fmt_map(mm)
         if before != after:
             out["fails"].append(("C19", f"{kind} {descr}: elaboration changed the memory map", "map-changed"))
+        elif mm is not None:
+            # metadata that queries do not show (is the map still open?): an identical twin that was never
+            # elaborated must answer one further `add_resource` exactly as the elaborated instance does
+            try:
+                _, _, _, mm2 = make(kind, lib.rng_for(case["seed"], case["idx"], 1919))
+                if fmt_map(mm2) == before:
+                    pa, pb = probe_add(mm2), probe_add(mm)
+                    if pa != pb:
+                        out["fails"].append(("C19", f"{kind} {descr}: after elaboration the memory map answers add_resource with {pb}, "
+                                                    f"a never-elaborated twin with {pa}", "map-openness-changed"))
+            except Timeout:
+                raise
+            except (ValueError, TypeError):
+                pass
         out["status"] = "ok"
         out["rtlil_len"] = len(texts[0])
         return out
